@@ -382,7 +382,8 @@ func (s *verifRoll) observedObj(c *verifRollChild) *unstructured.Unstructured {
 		st["observedGeneration"] = c.og
 	}
 	if c.hasCond {
-		cond := map[string]interface{}{"type": c.ctype, "status": c.cstatus, "reason": c.creason}
+		// a human-readable message accompanies the condition, as real controllers write it
+		cond := map[string]interface{}{"type": c.ctype, "status": c.cstatus, "reason": c.creason, "message": rt.String("cond-message-" + c.name)}
 		st["conditions"] = []interface{}{map[string]interface{}{"type": "Zzz", "status": "True"}, cond}
 	}
 	if len(st) > 0 {
@@ -1119,6 +1120,10 @@ func verifC07CondList(tag string, n int) (list []interface{}, ctype, cstatus, cr
 		if has {
 			re = rt.String(it + "-reason")
 			m["reason"] = re
+		}
+		if i == 0 {
+			// the first entry also carries a free-text message (the second one does not)
+			m["message"] = rt.String(it + "-message")
 		}
 		list = append(list, m)
 		ctype, cstatus, creason, hasReason = append(ctype, t), append(cstatus, st), append(creason, re), append(hasReason, has)
